@@ -274,7 +274,8 @@ class TracePointConfig:
         """
         try:
             return int(self.get_arg(name, default_value))
-        except ValueError:
+        except (ValueError, TypeError, OverflowError):
+            # (not only text that is no number: None, infinity, a list - what an application can register)
             return default_value
 
     def __str__(self) -> str:
